@@ -44,6 +44,7 @@ from vf.mon.ledger import Ledger, Ports, HarnessError
 
 ID = "C12"
 LEVEL = "exploration"
+PEAK_COUNTERS = ("max_extra_rounds_for_stalled_reader",)
 TECHNIQUE = ("virtual-time trace oracle: harness-ticked Tymist, real http Server/BareServer wound to it, raw client "
              "sockets; per service() call the loosest idle deadline a0+(n+1)T, the no-idle-close-while-active rule and "
              "the hook invariant Remoter.tymeout == server tymeout are evaluated from socket-level traffic/close taps")
@@ -52,13 +53,15 @@ RULE = ("cases = configuration x activity schedules. configuration: {WSGI Server
         "T/tock in {0.5, 1, 1.5, 2, 3, 4, 6, 8}. 1-4 connections per case, each with a schedule from {never any "
         "byte, one early fragment, burst of fragments, periodic single bytes of an unfinished head with period <T, =T, "
         ">T, HTTP/1.0 POST head then body dribbled with period <T, complete HTTP/1.0 request, HTTP/1.1 Connection: close "
-        "request, HTTP/1.0 request to an application that never answers, persistent HTTP/1.1 request (exempt after its "
+        "request, HTTP/1.0 request to an application that never answers, non-persistent request for a response of 2*tcp_wmem_max+2 MiB "
+        "whose reader stalls (small pinned receive buffer, never reads: every later send would-blocks), persistent HTTP/1.1 request (exempt after its "
         "head), client closes}. Non-trivial = some connection reached an idle deadline or was observed active across "
         ">= 2 windows; distinct = configuration, T/tock and the per-connection (schedule, outcome) list.")
 ASSUMPTIONS = [
     "non-persistent is judged only for connections whose bytes are unambiguous: nothing, an unfinished request head, "
     "HTTP/1.0 without keep-alive, or Connection: close",
-    "a traffic event is a successful recv()/send() on the server-side socket (what the server can observe); client "
+    "a traffic event is a recv()/send() on the server-side socket that moved >= 1 byte (what the server can observe); "
+    "a send that would block moved nothing and is not traffic; client "
     "bytes are written before the service() call of the same virtual tyme",
     "the idle deadline used is a0+(n+1)*T (loosest reading); last_traffic+T is recorded as an observation only",
     "exceptions escaping service() are counted, not judged here (C16)",
@@ -74,6 +77,8 @@ REQUIRE = {
     "active_window_evaluations": 2000,
     "service_calls": 10000,
     "configs": 3,
+    "stalled_reader_deadlines_judged": 60,
+    "blocked_sends_observed": 1000,
 }
 LEVEL_TEXT = ("Every service() call of every generated schedule is judged by the loosest idle deadline, the "
               "no-idle-close-while-active rule and the tymeout hook invariant, over plain/TLS WSGI servers and "
@@ -94,6 +99,21 @@ REQ10 = b"GET /ok HTTP/1.0\r\n\r\n"
 REQ11CLOSE = b"GET /ok HTTP/1.1\r\nHost: localhost\r\nConnection: close\r\n\r\n"
 REQSTALL = b"GET /stall HTTP/1.0\r\n\r\n"
 POST10 = b"POST /ok HTTP/1.0\r\nContent-Length: 100000\r\n\r\n"
+REQBIG10 = b"GET /big HTTP/1.0\r\n\r\n"
+REQBIG11CLOSE = b"GET /big HTTP/1.1\r\nHost: localhost\r\nConnection: close\r\n\r\n"
+
+
+def _big_size():
+    """response body larger than anything the kernel can buffer: the server-side send buffer autotunes up to
+    tcp_wmem[2]; the stalled reader pins its receive buffer to a few KiB"""
+    try:
+        wmax = int(open("/proc/sys/net/ipv4/tcp_wmem").read().split()[2])
+    except Exception:
+        wmax = 4 << 20
+    return min(64 << 20, 2 * wmax + (2 << 20))
+
+
+BIG = _big_size()
 REQ11KEEP = b"GET /ok HTTP/1.1\r\nHost: localhost\r\nContent-Length: 0\r\n\r\n"
 
 
@@ -118,6 +138,9 @@ def app(environ, start_response):
             while True:
                 yield b""     # hio: empty yield = nothing to write yet
         return never()
+    if environ.get("PATH_INFO") == "/big":
+        start_response("200 OK", [("Content-Type", "application/octet-stream"), ("Content-Length", str(BIG))])
+        return [b"x" * BIG]
     start_response("200 OK", [("Content-Type", "text/plain"), ("Content-Length", "2")])
     return [b"ok"]
 
@@ -169,6 +192,9 @@ def _schedule(rng, kind, m):
         ev.append([s + rng.randint(0, 1), "send", _lat(REQ11CLOSE[cut:])])
     elif kind == "app_stall":
         ev.append([rng.randint(0, mi), "send", _lat(REQSTALL)])
+    elif kind == "big_stall":
+        # non-persistent request for a response far larger than the socket buffers; the client never reads
+        ev.append([rng.randint(0, mi), "send", _lat(rng.choice([REQBIG10, REQBIG11CLOSE]))])
     elif kind == "persistent":
         s = rng.randint(0, mi)
         cut = rng.randint(1, len(REQ11KEEP) - 1)
@@ -184,7 +210,7 @@ def _schedule(rng, kind, m):
 
 
 KINDS = ["never", "never", "once", "burst", "periodic_lt", "periodic_lt", "periodic_eq", "periodic_gt", "dribble_body",
-         "complete10", "close11", "app_stall", "persistent", "client_close"]
+         "complete10", "close11", "app_stall", "persistent", "client_close", "big_stall"]
 
 
 def _gen(rng, cfg=None, m=None, kinds=None):
@@ -196,7 +222,7 @@ def _gen(rng, cfg=None, m=None, kinds=None):
     nsend = 0
     for i in range(len(kinds) if kinds else rng.randint(1, 4)):
         kind = kinds[i] if kinds else rng.choice(KINDS)
-        if cfg == "bare" and kind in ("app_stall",):
+        if cfg == "bare" and kind in ("app_stall", "big_stall"):
             kind = "never"
         start = rng.randint(0, 3) if i else 0
         ev = _schedule(rng, kind, m)
@@ -220,6 +246,15 @@ def cases(tier, seed, shard, nshards):
                     yield _gen(grid, cfg, m, kinds)
                 else:
                     _gen(grid, cfg, m, kinds)     # keep the stream aligned across shards
+                i += 1
+    # fixed grid 2: large response to a reader that stalls (blocked sends must not count as traffic)
+    for cfg in ("wsgi", "wsgi-tls"):
+        for m in TMULT:
+            for kinds in (["big_stall"], ["big_stall", "never"], ["once", "big_stall"]):
+                if i % nshards == shard:
+                    yield _gen(grid, cfg, m, kinds)
+                else:
+                    _gen(grid, cfg, m, kinds)
                 i += 1
     rng = random.Random(f"{seed}:C12:{shard}")
     n = (2000 if tier == "quick" else 40000) // nshards
@@ -262,6 +297,7 @@ class Conn:
         self.outcome = "open"
         self.flagged = False
         self.eof = False
+        self.eof_polls = 0
         self.active_windows = 0
         self.deadline_seen = False
         self.tymeout_first = None    # remoter.tymeout as constructed (recorded by the Remoter.__init__ wrapper)
@@ -430,7 +466,9 @@ class Run:
                                       f"tymer.expired={r.tymer.expired}", trace=self.trace[-20:])
         # peers: does the client see the close (EOF / reset)?
         for c in self.conns:
-            if c.entry is not None and not c.entry.open and not c.eof and c.sock is not None and not c.client_closed:
+            if c.entry is not None and not c.entry.open and not c.eof and c.sock is not None and not c.client_closed \
+                    and c.eof_polls < 3:
+                c.eof_polls += 1
                 c.eof = self.peer_sees_eof(c)
                 ctx.count("peer_saw_eof_after_server_close" if c.eof else "peer_eof_not_seen_yet")
 
@@ -449,6 +487,8 @@ class Run:
     # -- client actions ----------------------------------------------------------
     def connect(self, c):
         s = self.led.mine(socket.socket(socket.AF_INET, socket.SOCK_STREAM), role="client")
+        if c.kind == "big_stall":
+            s.setsockopt(socket.SOL_SOCKET, socket.SO_RCVBUF, 4096)   # fixed small window, no autotuning
         s.settimeout(5.0)
         s.connect((HOST, self.port))
         s.setsockopt(socket.IPPROTO_TCP, socket.TCP_NODELAY, 1)   # no Nagle: a write is on the wire before service()
@@ -511,6 +551,24 @@ class Run:
                                 ctx.count("client_closes")
             self.svc()
             self.tymist.tick()
+        # a stalled-reader connection's deadline a0+(n+1)T depends on how many sends the kernel took before it
+        # blocked, which is only known at run time: keep servicing (bounded) until each one has been judged
+        extra = 0
+        while extra < 1500 and any(c.kind == "big_stall" and c.entry is not None and c.entry.open and
+                                   not c.deadline_seen for c in self.conns):
+            self.svc()
+            self.tymist.tick()
+            extra += 1
+        ctx.peak("max_extra_rounds_for_stalled_reader", extra)
+        for c in self.conns:
+            if c.kind == "big_stall" and c.entry is not None:
+                ctx.count("blocked_sends_observed", c.entry.blocked)
+                if c.entry.blocked:
+                    ctx.count("stalled_reader_connections")
+                    if c.deadline_seen:
+                        ctx.count("stalled_reader_deadlines_judged")
+                    elif c.entry.open:
+                        ctx.count("stalled_reader_deadline_not_reached_obs")
         nontrivial = False
         outcomes = []
         for c in self.conns:
